@@ -49,7 +49,7 @@ func c13Doc(t *rapid.T, tag string) map[string]any {
 // c13Query draws one query over a document built with the given tag.
 func c13Query(t *rapid.T, tag string, site int, readOnlyOnly bool, onlyKind ...string) (q string, orderOpen bool, kind string, reader bool) {
 	kinds := []string{"filter", "subquery", "exists", "join", "pjoin", "group", "async", "order", "cte", "phash", "reader", "in_sub", "spinasync", "derived",
-		"range_reader", "range_from", "distinct_reader", "cte_async", "derived_async", "sub_async", "range_col", "pjoin_fail", "var_corunner", "join_using", "union", "distinct_wide", "distinct_wide_reader", "cte_join_using", "cte_self_pjoin", "like", "like", "cte_direct_slow", "sub2_async", "constants", "report", "pjoin_on_exists", "pjoin_on_exists", "async_reads_scope", "spin_reads_rows", "global_in_pjoin_on", "pjoin_on_union"}
+		"range_reader", "range_from", "distinct_reader", "cte_async", "derived_async", "sub_async", "range_col", "pjoin_fail", "var_corunner", "join_using", "union", "distinct_wide", "distinct_wide_reader", "cte_join_using", "cte_self_pjoin", "like", "like", "cte_direct_slow", "sub2_async", "constants", "report", "pjoin_on_exists", "pjoin_on_exists", "async_reads_scope", "spin_reads_rows", "global_in_pjoin_on", "pjoin_on_union", "await_sub", "pjoin_on_func"}
 	if len(onlyKind) > 0 {
 		// (bundles made of one kind only: a known finding is attached to that kind, see known_findings.json)
 		kinds = onlyKind
@@ -159,6 +159,11 @@ func c13Query(t *rapid.T, tag string, site int, readOnlyOnly bool, onlyKind ...s
 		// ON fails (not boolean) for every left key: several workers fail at once
 		jt := rapid.SampledFrom([]string{"PARALLEL JOIN", "PARALLEL LEFT JOIN", "PARALLEL STRAIGHT_JOIN", "PARALLEL RIGHT JOIN"}).Draw(t, "pfjt")
 		return fmt.Sprintf("SELECT * FROM %s x %s %s y ON x.%s %s y.%s AND x.%s", T, jt, U, id, rapid.SampledFrom([]string{"=", "<", ">="}).Draw(t, "pfop"), id, s), true, kind, false
+	case "pjoin_on_func":
+		// a user function in the ON of a PARALLEL join: with faults placed by argument value several workers fail, each in
+		// its own way (a returned error, a panic with an error, a panic with a string)
+		jt := rapid.SampledFrom([]string{"PARALLEL JOIN", "PARALLEL LEFT JOIN", "PARALLEL STRAIGHT_JOIN"}).Draw(t, "pofjt")
+		return fmt.Sprintf("SELECT * FROM %s x %s %s y ON x.%s <= y.%s AND fid(%d, x.%s) >= 0", T, jt, U, id, id, site, a), true, kind, false
 	case "var_corunner":
 		// user code on an ASYNC goroutine writes the query's variable context through the exported
 		// SETVAR function while nested selects of the same statement read it
@@ -179,6 +184,10 @@ func c13Query(t *rapid.T, tag string, site int, readOnlyOnly bool, onlyKind ...s
 		return fmt.Sprintf("SELECT * FROM (SELECT %s, ASYNC.fx(%d, %s) AS y FROM %s) d", id, site, a, T), false, kind, false
 	case "sub_async":
 		return fmt.Sprintf("SELECT %s, (SELECT %s, ASYNC.fx(%d, %s) AS y FROM %s) AS sub FROM %s", id, v, site, v, n, T), false, kind, false
+	case "await_sub":
+		// the awaited expression defers work of its own (a nested select, EXISTS, another AWAIT) while the query settles
+		return fmt.Sprintf("SELECT %s, AWAIT(%s) AS w FROM %s", id, rapid.SampledFrom([]string{
+			fmt.Sprintf("(SELECT %s FROM %s)", v, n), fmt.Sprintf("EXISTS (SELECT %s FROM %s)", v, n), fmt.Sprintf("AWAIT(ASYNC.fx(%d, %s))", site, a), fmt.Sprintf("(SELECT ASYNC.fx(%d, %s) AS y FROM dual)", site, a)}).Draw(t, "await_sub_form"), T), false, kind, false
 	case "reader":
 		sel := rapid.SampledFrom([]string{T + "." + id, T + "[0]." + a, T + "." + n + "." + v, U + "." + b}).Draw(t, "sel")
 		return sel, false, kind, true
@@ -284,11 +293,11 @@ func genC13(t *rapid.T) *Bundle {
 	// user code failing on some rows: placed by argument value, so the same
 	// rows fail in the concurrent run and in each solo run
 	if rapid.IntRange(0, 2).Draw(t, "with_faults") == 0 {
-		nf := rapid.IntRange(1, 2).Draw(t, "nfaults")
+		nf := rapid.IntRange(1, 3).Draw(t, "nfaults")
 		for i := 0; i < nf; i++ {
 			c.Stubs.Faults = append(c.Stubs.Faults, casefmt.Fault{ID: rapid.SampledFrom(sites).Draw(t, "fault_site"),
 				Arg:  rapid.SampledFrom([]string{"n:0", "n:10", "n:20", "n:1", "n:2"}).Draw(t, "fault_arg"),
-				Kind: rapid.SampledFrom([]string{"error", "panic"}).Draw(t, "fault_kind")})
+				Kind: rapid.SampledFrom([]string{"error", "panic", "panic_str"}).Draw(t, "fault_kind")})
 		}
 	}
 	tags := []string{"config:" + config}
